@@ -8,6 +8,7 @@
 import GIV.Lemmas.CacheRefine
 import GIV.Lemmas.CacheWitness
 import GIV.Lemmas.CacheHist
+import GIV.Lemmas.CacheParseGo
 
 namespace GIV.C05
 open GIV GIV.Cache
@@ -461,5 +462,100 @@ theorem put_get_any_hash_false : ¬ put_get_any_hash_statement := by
     (by decide) (by decide) (by decide) (FS.get_set_self _ _ _) rfl rfl
   rw [ht] at ht'
   simp at ht'
+
+/-! ### the index-entry parser of cache.go itself
+
+`GIV.Go.CacheParse.parseEntrySlice` is the Go→Lean translation (regenerated on every run, `GIV/Gen/CacheParseGo.lean`) of the
+statements of `(*Cache).get` from the header test to the `tm < 0` test, wrapped mechanically into a function of `entry`
+and `id` (harness/cmd/cache/fact.go); it returns (output id, size, time, reason, ok).  `hex.Decode` and
+`strconv.ParseInt` are library meanings (`GIV/GoLibCache.lean`). -/
+
+open GIV.Go.CacheParse GIV.CacheParseGo
+
+/-- For the buffer `get` allocates (`entrySize + 1` bytes, the first `entrySize` read from the file) the translated block
+returns exactly what the model's `parseEntry` returns on those `entrySize` bytes: output id, size and time of an accepted
+entry, or the zero results with the reason of the rejection (`goResult`). -/
+theorem go_parseEntry_agrees (id : Hash) (entry : Bytes) (h : entry.length = Gen.Cache.entrySize + 1) :
+    parseEntrySlice entry id.val = some (goResult (parseEntry id (entry.take Gen.Cache.entrySize))) :=
+  go_parseEntrySlice_eq id entry h
+
+/-- No index or slice expression of the block is out of range, `hex.Decode` never runs past the 32-byte array, and both
+skip-spaces loops end: the translation never yields `none`. -/
+theorem go_parseEntry_total (id : Hash) (entry : Bytes) (h : entry.length = Gen.Cache.entrySize + 1) :
+    parseEntrySlice entry id.val ≠ none := by
+  rw [go_parseEntry_agrees id entry h]; simp
+
+/-- The block accepts (`ok = true`) with output id `out`, size and time exactly when the model accepts with these. -/
+theorem go_parseEntry_ok_iff (id : Hash) (entry : Bytes) (h : entry.length = Gen.Cache.entrySize + 1)
+    (out : Bytes) (size tm : Int) (why : Bytes) :
+    parseEntrySlice entry id.val = some (out, size, tm, why, true) ↔
+      ∃ e, parseEntry id (entry.take Gen.Cache.entrySize) = .ok e ∧ e.out.val = out ∧ e.size = size ∧ e.time = tm ∧ why = [] := by
+  rw [go_parseEntry_agrees id entry h]
+  cases hp : parseEntry id (entry.take Gen.Cache.entrySize) with
+  | error r => simp [goResult]
+  | ok e =>
+    simp only [goResult, Option.some.injEq, Prod.mk.injEq, and_true, Except.ok.injEq, exists_eq_left']
+    constructor
+    · rintro ⟨a, b, c, d⟩; exact ⟨a, b, c, d.symm⟩
+    · rintro ⟨a, b, c, d⟩; exact ⟨a, b, c, d.symm⟩
+
+/-- The block rejects exactly when the model rejects, with the reason string of the model's reason
+(`errors.New` literal / `fmt.Errorf` prefix) and zero results. -/
+theorem go_parseEntry_error_iff (id : Hash) (entry : Bytes) (h : entry.length = Gen.Cache.entrySize + 1) (r : Reason) :
+    parseEntry id (entry.take Gen.Cache.entrySize) = .error r →
+      parseEntrySlice entry id.val = some (List.replicate 32 0, 0, 0, reasonText r, false) := by
+  intro hr
+  rw [go_parseEntry_agrees id entry h, hr]; rfl
+
+/-- and the model's rejection reasons that reach the block are the eight the block can give (never `panic`). -/
+theorem go_parseEntry_reject (id : Hash) (entry : Bytes) (h : entry.length = Gen.Cache.entrySize + 1)
+    (res : Bytes × Int × Int × Bytes) (hgo : parseEntrySlice entry id.val = some (res.1, res.2.1, res.2.2.1, res.2.2.2, false)) :
+    ∃ r, parseEntry id (entry.take Gen.Cache.entrySize) = .error r ∧ r ≠ .panic ∧ res.2.2.2 = reasonText r := by
+  rw [go_parseEntry_agrees id entry h] at hgo
+  cases hp : parseEntry id (entry.take Gen.Cache.entrySize) with
+  | ok e => rw [hp] at hgo; simp [goResult] at hgo
+  | error r =>
+    rw [hp] at hgo
+    simp only [goResult, Option.some.injEq, Prod.mk.injEq, and_true] at hgo
+    exact ⟨r, rfl, fun hpanic => parseEntry_ne_panic id _ (hpanic ▸ hp), hgo.2.2.2.symm⟩
+
+/-- **Round trip over the translated parser**: what `putIndexEntry` writes (`fmtEntry`, the regenerated format string) the
+translated block of `get` reads back — same output id, size and time — whatever the spare last byte of the buffer holds. -/
+theorem go_parse_fmt (id out : Hash) (size t : Int) (hs0 : 0 ≤ size) (hs1 : size < 2 ^ 63) (ht0 : 0 ≤ t) (ht1 : t < 2 ^ 63)
+    (x : UInt8) :
+    parseEntrySlice (fmtEntry id out size t ++ [x]) id.val = some (out.val, size, t, [], true) := by
+  have hl : (fmtEntry id out size t).length = Gen.Cache.entrySize :=
+    fmtEntry_length id out size t hs0 (by omega) ht0 (by omega)
+  rw [go_parseEntry_agrees id _ (by simp [hl]), List.take_left' hl, parse_fmt id out size t hs0 hs1 ht0 ht1]
+  rfl
+
+/-- a valid entry with a 19-digit time stamp, evaluated by the kernel on the generated definition -/
+example : parseEntrySlice (fmtEntry id1 id2 70000 1700000000000000000 ++ [0]) id1.val =
+    some (id2.val, 70000, 1700000000000000000, [], true) := by decide +kernel
+example : parseEntrySlice (fmtEntry id1 id2 70000 1700000000000000000 ++ [0]) id1.val =
+    some (id2.val, 70000, 1700000000000000000, [], true) :=
+  go_parse_fmt _ _ _ _ (by decide) (by decide) (by decide) (by decide) 0
+/-- wrong header byte ('w1 …') -/
+example : parseEntrySlice ((fmtEntry id1 id2 70000 1700000000000000000 ++ [0]).set 0 119) id1.val =
+    some (List.replicate 32 0, 0, 0, reasonText .header, false) := by decide +kernel
+/-- looked up under another id -/
+example : parseEntrySlice (fmtEntry id1 id2 70000 1700000000000000000 ++ [0]) id2.val =
+    some (List.replicate 32 0, 0, 0, reasonText .mismatchedID, false) := by decide +kernel
+/-- a non-hex digit ('g') in the id field / in the output-id field -/
+example : parseEntrySlice ((fmtEntry id1 id2 70000 1700000000000000000 ++ [0]).set 5 103) id1.val =
+    some (List.replicate 32 0, 0, 0, reasonText .decodeID, false) := by decide +kernel
+example : parseEntrySlice ((fmtEntry id1 id2 70000 1700000000000000000 ++ [0]).set 70 103) id1.val =
+    some (List.replicate 32 0, 0, 0, reasonText .decodeOut, false) := by decide +kernel
+/-- a negative size "-1", right-aligned in its 20-byte field -/
+example : parseEntrySlice (layout 118 49 32 (hexEncode id1.val) 32 (hexEncode id2.val) 32 (List.replicate 18 32 ++ [45, 49]) 32
+      (padLeft 20 (decimal 1700000000000000000)) [10, 0]) id1.val =
+    some (List.replicate 32 0, 0, 0, reasonText .negSize, false) := by decide +kernel
+/-- a size field of twenty spaces -/
+example : parseEntrySlice (layout 118 49 32 (hexEncode id1.val) 32 (hexEncode id2.val) 32 (List.replicate 20 32) 32
+      (padLeft 20 (decimal 1700000000000000000)) [10, 0]) id1.val =
+    some (List.replicate 32 0, 0, 0, reasonText .parseSize, false) := by decide +kernel
+/-- the hypothesis of the theorems is satisfiable and the totality statement has content -/
+example : parseEntrySlice (List.replicate 176 0) id1.val ≠ none :=
+  go_parseEntry_total id1 _ (by decide +kernel)
 
 end GIV.C05
